@@ -10,6 +10,18 @@ mod prog;
 mod sexp;
 
 use sexp::*;
+
+/// location and message of the most recent panic (set by the panic hook)
+pub static LAST_PANIC: std::sync::Mutex<String> = std::sync::Mutex::new(String::new());
+
+pub fn last_panic() -> String {
+    let s = LAST_PANIC.lock().unwrap().clone();
+    // keep only the path below src/ so that results do not depend on where /repo lives
+    match s.find("src/") {
+        Some(i) => s[i..].to_string(),
+        None => s,
+    }
+}
 use std::io::Write;
 
 fn run_job(job: &Sexp) -> String {
@@ -18,6 +30,7 @@ fn run_job(job: &Sexp) -> String {
         "reg" => circ::job_reg(job),
         "regalloc" => circ::job_regalloc(job),
         "compile" => circ::job_compile(job),
+        "compile-hash" => circ::job_compile_hash(job),
         "builder" => builder::job_builder(job),
         "literal" => lit::job_literal(job),
         "exhaust" => exhaust::job_exhaust(job),
@@ -30,7 +43,17 @@ fn run_job(job: &Sexp) -> String {
 }
 
 fn main() {
-    std::panic::set_hook(Box::new(|_| {}));
+    std::panic::set_hook(Box::new(|info| {
+        let loc = info.location().map(|l| format!("{}:{}", l.file(), l.line())).unwrap_or_default();
+        let msg = info
+            .payload()
+            .downcast_ref::<String>()
+            .cloned()
+            .or_else(|| info.payload().downcast_ref::<&str>().map(|s| s.to_string()))
+            .unwrap_or_default();
+        let msg: String = msg.chars().take(80).collect();
+        *LAST_PANIC.lock().unwrap() = format!("{loc} {msg}");
+    }));
     let args: Vec<String> = std::env::args().collect();
     let data = std::fs::read(&args[1]).expect("job file");
     let out: Box<dyn Write> = if args.len() > 2 {
